@@ -5,6 +5,7 @@ package c06
 import (
 	"bytes"
 	"fmt"
+	"go/token"
 	"os"
 	"os/exec"
 	"path/filepath"
@@ -63,10 +64,32 @@ var hostile = []string{
 	"wire", "stream", "fmt", "errors", "strings", "bytes", "json", "math", "strconv", "base64", "zapcore", "multierr", "ptr", "thriftreflect", "binary", "v", "w", "sw", "sr", "err", "i", "o", "x",
 }
 
+// mustAccept: hostile names that are nevertheless fine once mapped to Go
+// (goCase capitalises definition/field names, so Go keywords and predeclared
+// identifiers cannot clash there; as a package name only keywords are
+// illegal). Names of generated methods, helper shapes and underscore oddities
+// are left to the one-directional oracle.
+func mustAccept(class, h string) bool {
+	keyword := token.IsKeyword(h)
+	plain := map[string]bool{"error": true, "string": true, "int": true, "nil": true, "true": true, "bool": true, "len": true, "append": true, "new": true, "make": true, "byte": true,
+		"id": true, "http_url": true, "Url": true, "api_key": true, "SCREAMING_CASE": true, "a_1": true, "A": true,
+		"wire": true, "stream": true, "fmt": true, "errors": true, "strings": true, "bytes": true, "json": true, "math": true, "strconv": true, "base64": true, "zapcore": true, "multierr": true, "ptr": true, "thriftreflect": true, "binary": true}
+	if class == "name:exception-field" && h == "error" {
+		return false // clashes with the Error() method of the generated exception: rejection is right
+	}
+	switch class {
+	case "name:file", "name:included-file":
+		return plain[h] && !keyword && h != "A" && h != "Url" && h != "SCREAMING_CASE" // lower-case file names only
+	case "name:struct", "name:field", "name:field-required-container", "name:enum", "name:typedef", "name:const", "name:service", "name:function", "name:argument", "name:union-member", "name:exception-field":
+		return plain[h] || keyword
+	}
+	return false
+}
+
 func adversarial(quick bool) []cell {
 	var out []cell
 	add := func(class, name, idl string) {
-		out = append(out, cell{Name: fmt.Sprintf("adv%d", len(out)), Class: class + ":" + strings.ReplaceAll(name, " ", ""), Files: map[string]string{"t.thrift": idl}, Root: "t.thrift"})
+		out = append(out, cell{Name: fmt.Sprintf("adv%d", len(out)), Class: class + ":" + strings.ReplaceAll(name, " ", ""), Files: map[string]string{"t.thrift": idl}, Root: "t.thrift", Benign: mustAccept(class, name)})
 	}
 	for _, h := range hostile {
 		add("name:struct", h, fmt.Sprintf("struct %s { 1: optional i32 a }\nstruct Q { 1: optional %s f; 2: optional list<%s> g }", h, h, h))
@@ -81,9 +104,9 @@ func adversarial(quick bool) []cell {
 		add("name:argument", h, fmt.Sprintf("service S { string f(1: i32 %s, 2: string other) }", h))
 		add("name:exception-field", h, fmt.Sprintf("exception X { 1: optional string %s }\nservice S { void f() throws (1: X %s) }", h, h))
 		add("name:union-member", h, fmt.Sprintf("union U { 1: i32 %s; 2: string other }", h))
-		out = append(out, cell{Name: fmt.Sprintf("adv%d", len(out)), Class: "name:file:" + h, Root: h + ".thrift",
+		out = append(out, cell{Name: fmt.Sprintf("adv%d", len(out)), Class: "name:file:" + h, Root: h + ".thrift", Benign: mustAccept("name:file", h),
 			Files: map[string]string{h + ".thrift": "struct S { 1: optional i32 a }\nenum E { A }\nconst i32 c = 1\nservice V { void f() }"}})
-		out = append(out, cell{Name: fmt.Sprintf("adv%d", len(out)), Class: "name:included-file:" + h, Root: "t.thrift",
+		out = append(out, cell{Name: fmt.Sprintf("adv%d", len(out)), Class: "name:included-file:" + h, Root: "t.thrift", Benign: mustAccept("name:included-file", h),
 			Files: map[string]string{h + ".thrift": "struct S { 1: optional i32 a }\nenum E { A }", "t.thrift": fmt.Sprintf("include \"./%s.thrift\"\nstruct T { 1: optional %s.S s; 2: optional list<%s.E> es }", h, h, h)}})
 	}
 	// colliding spellings in one scope
@@ -245,6 +268,40 @@ func benign(quick bool) []cell {
 				}
 			}})
 	}
+	// constants referenced by name: every naming style x type x referencing site, same file and across an include
+	styles := []string{"lower", "Upper", "ALLCAPS", "SCREAMING_SNAKE", "camelCase", "with_underscore", "X"}
+	types := []struct{ name, typ, val string }{
+		{"i32", "i32", "7"}, {"string", "string", "\"s\""}, {"enum", "Color", "Color.RED"}, {"typedef-i64", "Millis", "100"}, {"typedef-enum", "Hue", "Color.BLUE"},
+		{"list", "list<i32>", "[1, 2]"}, {"struct", "Pt", "{\"x\": 1}"}, {"double", "double", "1.5"}, {"bool", "bool", "true"},
+	}
+	prelude := "enum Color { RED = 1, BLUE = 2 }\ntypedef i64 Millis\ntypedef Color Hue\nstruct Pt { 1: optional i32 x }\n"
+	n := 0
+	for _, st := range styles {
+		for _, ty := range types {
+			n++
+			same := prelude + fmt.Sprintf("const %s %s = %s\nconst %s Second = %s\nstruct Holder { 1: optional %s f = %s }\nconst list<%s> Many = [%s, %s]\nservice Svc { void call(1: %s a = %s) }\n",
+				ty.typ, st, ty.val, ty.typ, st, ty.typ, st, ty.typ, st, st, ty.typ, st)
+			out = append(out, cell{Name: fmt.Sprintf("cref%d", n), Class: "constref:" + st + ":" + ty.name, Benign: true, Root: "t.thrift", Files: map[string]string{"t.thrift": same}})
+			q := func(t string) string {
+				switch t {
+				case "Color", "Millis", "Hue", "Pt":
+					return "defs." + t
+				}
+				return t
+			}
+			cross := fmt.Sprintf("include \"./defs.thrift\"\nconst %s Second = defs.%s\nstruct Holder { 1: optional %s f = defs.%s }\nservice Svc { void call(1: %s a = defs.%s) }\n", q(ty.typ), st, q(ty.typ), st, q(ty.typ), st)
+			if ty.name == "list" {
+				cross = fmt.Sprintf("include \"./defs.thrift\"\nconst list<i32> Second = defs.%s\nstruct Holder { 1: optional list<i32> f = defs.%s }\n", st, st)
+			}
+			out = append(out, cell{Name: fmt.Sprintf("crefx%d", n), Class: "constref-cross:" + st + ":" + ty.name, Benign: true, Root: "t.thrift",
+				Files: map[string]string{"t.thrift": cross, "defs.thrift": prelude + fmt.Sprintf("const %s %s = %s\n", ty.typ, st, ty.val)}})
+		}
+	}
+	// enums: duplicate values in every position, negative and explicit/implicit mixes
+	for i, e := range []string{"A = 0, B = 0, C = 1", "A = 1, B = 1", "A, B = 0, C", "A = -1, B, C = 0, D = 0, E", "A = 5, B = 5, C = 5, D", "A = 2147483647, B = -2147483648, C = 2147483647, D = 0"} {
+		out = append(out, cell{Name: fmt.Sprintf("enumdup%d", i), Class: "enum-duplicate-values", Benign: true, Root: "t.thrift",
+			Files: map[string]string{"t.thrift": "enum E { " + e + " }\nstruct S { 1: optional E e; 2: optional list<E> es; 3: optional map<E, string> m }\nconst E CE = E.A\n"}})
+	}
 	// layouts
 	lay := func(name string, files map[string]string, root, thriftRoot string) {
 		out = append(out, cell{Name: "lay_" + name, Class: "layout:" + name, Benign: true, Files: files, Root: root, ThriftRoot: thriftRoot})
@@ -320,6 +377,9 @@ func run(w *ev.W) {
 			os.RemoveAll(filepath.Join(mod, c.Name))
 			if strings.HasPrefix(gerr.Error(), "PANIC") {
 				w.Violation("generator-panic:"+c.Class, fmt.Sprintf("%v on %v", gerr, c.Files), c.Files)
+			} else if c.Benign && strings.Contains(gerr.Error(), "parse error") && strings.HasPrefix(c.Class, "name:") {
+				// the IDL itself reserves this word (Thrift keyword or reserved word): not a well-formed program
+				w.Outcome("rejected-by-parser:" + classKind(c.Class))
 			} else if c.Benign {
 				w.Violation("rejected-valid:"+c.Class, fmt.Sprintf("a valid program was rejected: %.300s; files %v", gerr.Error(), c.Files), c.Files)
 			} else {
